@@ -29,6 +29,7 @@ type Perturb struct {
 type PerturbStats struct {
 	Restarts, Checks, ChecksPassed, Queries, Boundaries int
 	FreshChecks, FreshPassed, QueriesCompared           int
+	FreshVotes                                          int // never-delivered votes of recorded voters that passed CheckTx
 	FreshToContract                                     int
 	QueryMismatch                                       []string
 	CheckPanics, QueryPanics                            []string
@@ -169,6 +170,45 @@ func RerunPerturbed(h *History, scratch, label string, p Perturb) (*History, *Pe
 				}
 			}
 			return
+		}
+		if rng.Intn(4) == 0 && len(h.WatchH) > 0 {
+			// a vote of a recorded voter on a proposal whose voting window is open: checked, never delivered
+			if snp, err := n.Snapshot(height-1, nil, h.WatchH); err == nil {
+				for pi, p := range snp.Props {
+					if p == nil || p.Frozen || height < p.Start || height > p.End || len(p.Voters) == 0 || len(p.Options) == 0 {
+						continue
+					}
+					v := p.Voters[rng.Intn(len(p.Voters))]
+					var vk *Key
+					for _, k := range h.Keys {
+						if bytes.Equal(k.Addr, v.Addr) {
+							kk := k
+							vk = &kk
+						}
+					}
+					sv, err := n.Snapshot(height-1, [][]byte{v.Addr}, nil)
+					if vk == nil || err != nil || len(sv.Accts) == 0 {
+						continue
+					}
+					vt := &TxSpec{Type: 5, From: v.Addr, To: make([]byte, 20), Amount: "0", GasPrice: sn.Params.GasPrice, Gas: sn.Params.MinTrxGas + 1,
+						Nonce: sv.Accts[0].Nonce + pendingNonce[string(v.Addr)], Time: int64(1_800_000_000_000_000_000) + int64(st.Checks),
+						SignerLabel: vk.Name, VoteHash: h.WatchH[pi], VoteChoice: int32(rng.Intn(len(p.Options))), Note: "noise-fresh-vote"}
+					if bt, err := Build(vt, h.Keys, h.Genesis.ChainID); err == nil {
+						code, pn := n.Check(bt.Bytes)
+						st.Checks++
+						st.FreshChecks++
+						if pn != "" {
+							st.CheckPanics = append(st.CheckPanics, pn)
+						} else if code == 0 {
+							st.ChecksPassed++
+							st.FreshPassed++
+							st.FreshVotes++
+							pendingNonce[string(v.Addr)]++
+						}
+					}
+					return
+				}
+			}
 		}
 		switch rng.Intn(5) {
 		case 0: // transfer
